@@ -24,7 +24,7 @@ m = {
     "setup_cmd": "./setup.sh",
     "hooks": {
         "guard": "cargo feature `verif_hooks` of package serde-saphyr",
-        "enable": "the harness (/verif/harness) depends on /repo by path with features = [\"verif_hooks\", \"garde\", \"validator\", \"miette\", \"robotics\"]",
+        "enable": "the harness (/verif/harness) depends on /repo by path with features = [\"verif_hooks\", \"garde\", \"validator\", \"miette\", \"robotics\" (the harness feature `robotics`, on by default)]; a second binary (harness/target-plain, --no-default-features) is built WITHOUT `robotics` for the scalar areas of C06 / C12",
         "baseline_off_cmd": "cd /repo && cargo nextest run --workspace --no-fail-fast --tool-config-file pb:/w/lib/nextest.toml --profile pb --test-threads 8 --offline",
         "source_commits": HOOK_COMMITS,
         "add_only": True,
